@@ -1050,6 +1050,13 @@ func DecodeCashAddress(str string) (string, []byte, error) {
 		values[i] = byte(CharsetRev[c])
 	}
 
+	// The payload must at least hold the 8 checksum symbols, otherwise the
+	// slice below would have a negative bound even if the polymod happens to
+	// be zero.
+	if len(values) < 8 {
+		return "", nil, errors.New("address is too short to hold a checksum")
+	}
+
 	// Verify the checksum.
 	if !verifyChecksum(prefix, values) {
 		return "", nil, ErrChecksumMismatch
